@@ -214,8 +214,11 @@ public:
 
 		// can't std::forward<Args>(args) in GetEvent::getEvent because the pass by value arguments will be moved to getEvent
 		// then the other std::forward<Args>(args) to directDispatch will get empty values.
+		// The event must be obtained before the call to directDispatch, the evaluation order of function arguments
+		// is unspecified and a pass by value argument may be moved to directDispatch before getEvent reads it.
+		const Event e = GetEvent::getEvent(args...);
 		directDispatch(
-			GetEvent::getEvent(args...),
+			e,
 			std::forward<Args>(args)...
 		);
 	}
@@ -227,8 +230,9 @@ public:
 
 		using GetEvent = typename SelectGetEvent<Policies_, EventType_, HasFunctionGetEvent<Policies_, T &&, Args...>::value>::Type;
 
+		const Event e = GetEvent::getEvent(std::forward<T>(first), args...);
 		directDispatch(
-			GetEvent::getEvent(std::forward<T>(first), args...),
+			e,
 			std::forward<Args>(args)...
 		);
 	}
